@@ -159,8 +159,9 @@ func c06SendResp(c *cx) {
 	}
 }
 
-func c06Handoff(c *cx) {
-	id := "C06.2"
+func c06Handoff(c *cx) { c06HandoffAs(c, "C06.2") }
+
+func c06HandoffAs(c *cx, id string) {
 	f := c.fn(id, "", "handleInputStream")
 	if f == nil {
 		return
